@@ -13,6 +13,7 @@ A scenario = {"graph": {"nodes": [[id, t, track?]..], "edges": [[u,v]..]}, "seg"
 from __future__ import annotations
 
 import argparse
+import os
 import copy
 import json
 import random
@@ -142,7 +143,8 @@ def do_step(tr, step, emits):
         elif kind == "attrs":
             a = UserUpdateNodeAttrs(tr, step[1], {step[2]: step[3]})
         elif kind == "paint":
-            a = paint(tr, step[1], step[2], step[3], step[4], bool(step[5]), step[6] if len(step) > 6 else None)
+            a = paint(tr, step[1], step[2], step[3], step[4], bool(step[5]), step[6] if len(step) > 6 else None,
+                      bool(step[7]) if len(step) > 7 else False)
         elif kind == "undo":
             return ("ok", tr.undo())
         elif kind == "redo":
@@ -160,7 +162,7 @@ def do_step(tr, step, emits):
         return ("refused", e)
 
 
-def paint(tr, new_value, t, ys, xs, force, track_id=None):
+def paint(tr, new_value, t, ys, xs, force, track_id=None, reverse_groups=False):
     """Paint pixels (t, ys, xs) with new_value as a GUI would: write the array first, then group the
     changed pixels by previous label and call UserUpdateSegmentation; restore on refusal."""
     seg = tr.segmentation
@@ -174,6 +176,8 @@ def paint(tr, new_value, t, ys, xs, force, track_id=None):
         m = prev == old
         groups.append(((np.full(m.sum(), t), ys[m], xs[m]), int(old)))
     tid = track_id if track_id is not None else tr.get_next_track_id()
+    if reverse_groups:
+        groups.reverse()  # the order of the per-label groups is up to the caller (the GUI)
     try:
         return UserUpdateSegmentation(tr, int(new_value), groups, tid, force=force)
     except Exception:
@@ -232,7 +236,7 @@ def random_step(rng, tr, seg):
     labels = [int(v) for v in np.unique(tr.segmentation[t]) if v != 0]
     val = rng.choice([0, nid] + labels) if labels else rng.choice([0, nid])
     ptid = rng.choice(tids) if rng.random() < 0.6 else None
-    return ["paint", val, t, [c[0] for c in cells], [c[1] for c in cells], rng.random() < 0.3, ptid]
+    return ["paint", val, t, [c[0] for c in cells], [c[1] for c in cells], rng.random() < 0.3, ptid, rng.random() < 0.5]
 
 
 # ----------------------------------------------------------------------------- oracles
@@ -430,10 +434,9 @@ def run_scenario(sc, props, stop_at_first=True):
             if before != after:
                 diff = [k for k in before if before[k] != after[k]]
                 viol.append(("C11", f"{where}: refused with {type(res[1]).__name__}({res[1]}) but {diff} changed"))
-                if "C11" not in props:
-                    # a half-applied refused edit is C11's violation; what follows is outside the domain
-                    # of the other properties ("starting from a consistent state")
-                    return [v for v in viol if v[0] in props]
+                # a half-applied refused edit is C11's violation; what follows is outside the domain
+                # of the other properties ("starting from a consistent state")
+                return [v for v in viol if v[0] in props]
             if new_em:
                 viol.append(("C20", f"{where}: refused action emitted refresh"))
                 viol.append(("C11", f"{where}: refused action emitted refresh"))
@@ -519,6 +522,71 @@ def shrink(sc, props, prop):
     return best
 
 
+PAINT_FIXTURES = [
+    # division with a frame-skipping edge, an isolated node, a chain
+    {"nodes": [[1, 0], [2, 1], [3, 2], [4, 1], [5, 0]], "edges": [[1, 2], [1, 3], [5, 4]]},
+    {"nodes": [[1, 0], [2, 1], [3, 2], [4, 2]], "edges": [[1, 2], [2, 3], [2, 4]]},
+]
+
+
+def _paint_part(a):
+    props, stride, ignore, part, nparts = a
+    return paint_exhaustive(props, stride, ignore, part, nparts)
+
+
+def paint_exhaustive_par(props, stride, ignore, nproc):
+    import multiprocessing as mp
+    with mp.Pool(nproc) as pool:
+        rs = pool.map(_paint_part, [(props, stride, ignore, i, nproc) for i in range(nproc)])
+    out = {"found": False, "scenarios_tried": sum(r["scenarios_tried"] for r in rs), "known": [], "exhaustive": stride == 1}
+    for r in rs:
+        if r.get("known") and not out["known"]:
+            out["known"] = r["known"]
+        if r["found"] and not out["found"]:
+            out.update(found=True, scenario=r["scenario"], violations=r["violations"])
+    return out
+
+
+def paint_exhaustive(props, stride, ignore=(), part=0, nparts=1):
+    """every rectangular stroke (1x1 .. 2x3) at every position of every frame of two small fixtures, with every
+    label choice (erase / each label of the frame / a new label), every existing track id or a fresh one, force
+    on/off, both orders of the per-label groups - each followed by undo and redo.  `stride` subsamples."""
+    import re
+    n = k = 0
+    known = []
+    for fx in PAINT_FIXTURES:
+        base = build_tracks(fx, seg=True)
+        nframes = base.segmentation.shape[0]
+        tids = sorted({base.get_track_id(x) for x in base.graph.nodes})
+        for t in range(nframes):
+            labels = [int(v) for v in np.unique(base.segmentation[t]) if v != 0]
+            for h, w in ((1, 1), (1, 2), (2, 2), (2, 3)):
+                for y0 in range(0, H - h + 1):
+                    for x0 in range(0, Wd - w + 1, 2):
+                        cells = [(y, x) for y in range(y0, y0 + h) for x in range(x0, x0 + w)]
+                        for val in [0, 90] + labels:
+                            for tid in (tids + [None] if val == 90 else [None]):
+                                for force in ((False, True) if val == 90 else (False,)):
+                                    for rev in (False, True):
+                                        k += 1
+                                        if k % stride or (k // stride) % nparts != part:
+                                            continue
+                                        n += 1
+                                        sc = {"graph": fx, "seg": True, "enable": ["iou"],
+                                              "steps": [["paint", val, t, [c[0] for c in cells], [c[1] for c in cells], force, tid, rev], ["undo"], ["redo"]]}
+                                        try:
+                                            v = run_scenario(sc, props)
+                                        except Exception as e:
+                                            v = [(props[0], f"harness/real code crashed: {type(e).__name__}: {e}")]
+                                        if v:
+                                            if ignore and all(any(re.search(pat, x[1]) for pat in ignore) for x in v):
+                                                if not known:
+                                                    known.append({"scenario": sc, "violations": [list(x) for x in v[:2]]})
+                                                continue
+                                            return {"found": True, "scenario": sc, "violations": [list(x) for x in v[:3]], "scenarios_tried": n, "known": known}
+    return {"found": False, "scenarios_tried": n, "known": known, "exhaustive": stride == 1}
+
+
 def main():
     ap = argparse.ArgumentParser()
     ap.add_argument("--prop", default="C03")
@@ -529,6 +597,7 @@ def main():
     ap.add_argument("--noseg", action="store_true")
     ap.add_argument("--segonly", action="store_true")
     ap.add_argument("--ignore", action="append", default=[])
+    ap.add_argument("--paint-exhaustive", type=int, default=0, help="stride (1 = every stroke)")
     a = ap.parse_args()
     props = a.prop.split(",")
     if a.replay:
@@ -536,6 +605,9 @@ def main():
         sc = sc.get("witness", sc).get("scenario", sc)
         v = run_scenario(sc, props, stop_at_first=False)
         print(json.dumps({"violated": bool(v), "violations": [list(x) for x in v[:5]]}))
+        return
+    if a.paint_exhaustive:
+        print(json.dumps(paint_exhaustive_par(props, a.paint_exhaustive, tuple(a.ignore), int(os.environ.get("PYVC_NPROC", "12"))), default=str))
         return
     segs = (False,) if a.noseg else ((True,) if a.segonly else (False, True))
     focus = [f for f in a.focus.split(",") if f]
